@@ -3,6 +3,7 @@ HARNESSES = [
     COMMON["enc_gate"](12), COMMON["enc_gate"](13),
     COMMON["dec12"]("poison12", ["C15"], COMMON["dec12_cases"](64, 40, dtls_only=("dtls10", "dtls12n")) + COMMON["dec12_cases"](96, 56, tier="thorough")),
     COMMON["dec13"]("poison13", ["C15"], ns=((48, "quick"), (96, "thorough"))),
+    COMMON["api_recv"](only=("sent_tls12",)),
 ]
 PROPERTY = dict(level='model_checking',
     claim='Every decode return with a queued fatal alert poisons the session (SSL_FLAGS_ERROR) and never reports success/data; received fatal alerts / close_notify flag the session; undecryptable TLS 1.3 records are skipped only for rejected early data within the limit.',
